@@ -69,10 +69,11 @@ namespace raptor
         {
             num_procs = global_num_rows;
         }
-        avg_num = global_num_cols / num_procs;
-        extra = global_num_cols % num_procs;
         if (local_num_rows)
         {
+            // num_procs >= 1 here: a rank with rows implies global_num_rows >= 1
+            avg_num = global_num_cols / num_procs;
+            extra = global_num_cols % num_procs;
             first_local_col = avg_num * rank;
             local_num_cols = avg_num;
             if (extra > rank)
@@ -149,10 +150,11 @@ namespace raptor
         }
 
             global_num_col_blocks = global_num_cols / _bcols;
-        avg_num_blocks = global_num_col_blocks / num_procs;
-        extra = global_num_col_blocks % num_procs;
         if (local_num_rows)
         {
+            // num_procs >= 1 here: a rank with rows implies at least one row block
+            avg_num_blocks = global_num_col_blocks / num_procs;
+            extra = global_num_col_blocks % num_procs;
             first_local_col = avg_num_blocks * rank * _bcols;
             local_num_cols = avg_num_blocks * _bcols;
             if (extra > rank)
